@@ -9,7 +9,23 @@ impl std::fmt::Display for FakeErr {
         write!(f, "fake transport error #{}", self.0)
     }
 }
-impl std::error::Error for FakeErr {}
+/// Bits 8–9 of the number give the error a SOURCE CHAIN, as real HTTP client errors have one (1: an I/O timeout, 2: a
+/// connection reset, 3: an error that is not an I/O error). No property gives the chain a meaning: a transport failure is a
+/// transport failure.
+impl std::error::Error for FakeErr {
+    fn source(&self) -> Option<&(dyn std::error::Error + 'static)> {
+        static SOURCES: std::sync::OnceLock<(std::io::Error, std::io::Error, std::fmt::Error)> = std::sync::OnceLock::new();
+        let s = SOURCES.get_or_init(|| {
+            (std::io::Error::new(std::io::ErrorKind::TimedOut, "timed out"), std::io::Error::new(std::io::ErrorKind::ConnectionReset, "connection reset by peer"), std::fmt::Error)
+        });
+        match (self.0 >> 8) & 3 {
+            1 => Some(&s.0),
+            2 => Some(&s.1),
+            3 => Some(&s.2),
+            _ => None,
+        }
+    }
+}
 
 pub fn response(status: u16, content_type: Option<&[u8]>, body: &[u8]) -> HttpResponse {
     let mut b = http::Response::builder().status(status);
